@@ -60,6 +60,58 @@ def ge_k(e, body):
     return False
 
 
+def scratch_resets(prog, body, adt, depth=2):
+    """{field: how} — the fields of the struct `adt` that the `&mut self` method `body` resets on EVERY path to its return:
+         assigned                (*self).f = ..                                         in a block that dominates every return
+         cleared / drained       clear(&mut self.f) / drain(&mut self.f, ..) / take     in a block that dominates every return
+         cleared bit by bit      words of self.f looked up by ids drained (in full) from another field and and-ed with a mask
+         through a callee        a method of the same struct called on self in a block that dominates every return does one of the above"""
+    rets = [x for x in body.return_blocks() if x in body.live_blocks()]
+    if not rets:
+        return {}
+
+    def always(bb):
+        return all(body.dominates(bb, r) for r in rets)
+    of = flow.Origin(body)
+    out = {}
+    fld = re.compile(r'^arg:\w+→%s\.(\w+)$' % re.escape(adt))
+    drained = set()
+    for i, blk in enumerate(body.blocks):
+        if i not in body.live_blocks():
+            continue
+        for st in blk['s']:
+            if 'rv' not in st:
+                continue
+            pr_ = st['pl'].get('p') or []
+            if st['pl']['l'] == 1 and len(pr_) == 2 and pr_[0] == '*' and isinstance(pr_[1], str) and ('%s.' % adt) in pr_[1] and always(i):
+                out.setdefault(pr_[1].rsplit('.', 1)[-1], 'assigned at %s' % body.loc_of(i))
+    for c in body.calls:
+        if not c.callee or not c.args or c.bb not in body.live_blocks():
+            continue
+        sh = flow.short(c.callee)
+        m_ = fld.match(flow.render(of.of_operand(c.args[0])))
+        if m_ and always(c.bb) and re.search(r'::(clear|drain|take)$', sh):
+            if sh.endswith('::drain'):
+                if len(c.args) < 2 or 'RangeFull' not in flow.render(of.of_operand(c.args[1])):
+                    continue
+                drained.add(m_.group(1))
+            out.setdefault(m_.group(1), '%s at %s' % (sh, c.loc))
+        callee = prog.resolve_local(c.callee)
+        a0 = of.of_operand(c.args[0])
+        if callee is not None and depth > 0 and callee is not body and ('::%s::' % adt) in callee.id and a0[0] == 'arg' and a0[1] == 1 and always(c.bb):
+            for f_, how in scratch_resets(prog, callee, adt, depth - 1).items():
+                out.setdefault(f_, '%s (in %s, called at %s)' % (how, flow.short(callee.id), c.loc))
+    # the bitset: every id recorded in a fully drained field selects a word of this field, which is and-ed with a mask
+    masks = [i for i, blk in enumerate(body.blocks) for st in blk['s'] if 'rv' in st and st['rv'].get('k') == 'bin' and st['rv'].get('op') == 'BitAnd' and st['pl'].get('p')]
+    for c in body.calls:
+        if c.callee and re.search(r'::get(_unchecked)?_mut$', c.callee) and len(c.args) > 1 and masks and drained:
+            m_ = fld.match(flow.render(of.of_operand(c.args[0])))
+            ix = flow.render(of.of_operand(c.args[1]))
+            if m_ and 'Drain' in ix and any(body.reach([c.bb]) & {x} for x in masks):
+                out.setdefault(m_.group(1), 'cleared bit by bit for every id drained from %s (looked up at %s)' % ('/'.join(sorted(drained)), c.loc))
+    return out
+
+
 def run(ctx, prog):
     ctx.not_decided = ['mean recall ≥ 0.80 per distribution × metric × dimension × size (a statistic of numeric outputs)',
                        'recall drop ≤ 0.10 between build routes (online, bulk, delete + compaction, recovery rebuild)',
@@ -125,6 +177,37 @@ def run(ctx, prog):
         n_marks += len(marks)
         ctx.inst('C16.R2', b.short.replace('ann_backend::', '').split('::{')[0], 'prepare precedes every mark of the search', bool(prep) and all(any(b.dominates(p.bb, m.bb) for p in prep) for m in marks), '%d mark call(s), %d prepare call(s)' % (len(marks), len(prep)))
     ctx.floor('C16.R2', 'mark call sites in the search bodies', n_marks, 5, '2 + 3 on the pinned tree')
+    # closed inventory of the scratch's state: the scratch is thread-local and outlives the search, so EVERY field it has is state one search can leave for the
+    # next one on the same thread.  Each field must be reset by prepare() on every path (assigned, cleared / drained, or — the visited bitset — cleared bit by bit
+    # through the recorded marks, instances above), and prepare() precedes every other access to the scratch in the search bodies.  A field prepare() does not
+    # reset (a remembered entry point, a cached bound) makes the answer depend on which query this thread answered before: repeated searches differ
+    adt = [a for p_, a in prog.adts.items() if p_.endswith('::ann_backend::FlatSearchScratch')]
+    fields = [f_['name'] for f_ in adt[0]['variants'][0]['fields']] if len(adt) == 1 and adt[0].get('kind') == 'struct' else []
+    if not fields:
+        ctx.missing('C16.R2', 'struct ann_backend::FlatSearchScratch (field list)')
+    elif pr is not None:
+        resets = scratch_resets(prog, pr, 'FlatSearchScratch')
+        for f_ in fields:
+            ctx.inst('C16.R2', 'FlatSearchScratch', 'field %s is reset by prepare() on every path' % f_, f_ in resets,
+                     resets.get(f_) or ('prepare() never resets FlatSearchScratch.%s on every path: what one search leaves there is still there when the next search on the same '
+                                        'thread starts, so the result of a search depends on the queries answered before it' % f_))
+        ctx.floor('C16.R2', 'fields of the thread-local search scratch', len(fields), 5, 'visited bits, recorded marks, trim flag, two heaps')
+    n_acc = 0
+    for root_nm in ('FlatGraph::search_layer0_exact', 'FlatGraph::search_at_layer_into'):
+        rootb = ctx.body('C16.R2', root_nm)
+        for b in (prog.family(rootb) if rootb is not None else []):
+            prep = [c for c in b.calls if c.callee and c.callee.endswith('FlatSearchScratch::prepare')]
+            if not prep:
+                continue
+            # every way into the scratch goes through Deref / DerefMut of the RefMut that guards it
+            acc = [c for c in b.calls if c.callee and re.search(r'RefMut<.*> as .*::Deref(Mut)?>::deref(_mut)?$', c.callee) and c.args and c.args[0].get('pl') and
+                   'FlatSearchScratch' in b.locals[c.args[0]['pl']['l']]]
+            feeds = [c for c in acc if c.to is not None and any(p.bb == c.to for p in prep)]
+            early = [c for c in acc if c not in feeds and not any(b.dominates(p.bb, c.bb) for p in prep)]
+            n_acc += len(acc)
+            ctx.inst('C16.R2', b.short.replace('ann_backend::', '').split('::{')[0], 'prepare precedes every other access to the scratch', bool(acc) and len(feeds) == len(prep) and not early,
+                     ('the scratch is accessed at %s before prepare() has reset it' % early[0].loc) if early else '%d accesses, %d of them the receiver of prepare()' % (len(acc), len(feeds)))
+    ctx.floor('C16.R2', 'accesses to the scratch in the search bodies', n_acc, 20, '19 + 32 on the pinned tree')
 
     # ------------------------------------------------------------------ R3
     ctx.rule('C16.R3', 'beam ≥ answer: the width passed to search_layer0_exact is ≥ min(k, node count); compute_search_k(k, ..) ≥ k for 1 ≤ k ≤ 10 000 on every '
@@ -243,4 +326,68 @@ def run(ctx, prog):
                      ('after %s at %s the comparison at %s is reachable without refreshing worst_dist' % (flow.short(stale[0][0].callee), stale[0][0].loc, b.loc_of(stale[0][1]))) if stale
                      else '%d heap changes, %d comparisons against the bound, %d refresh sites (%d from peek)' % (len(muts), len(uses), len(refresh), from_peek))
     ctx.floor('C16.R4', 'beam-search bodies with a pruning bound', n4, 2, 'search_layer0_exact, search_at_layer_into')
+    # ------------------------------------------------------------------ R5 reverse edges of the graph construction
+    ctx.rule('C16.R5', 'reverse edges (graph construction): merge_and_prune_reverse_edge_with_scratch leaves the target\'s adjacency list as it is only when the arguments are '
+                       'invalid (layer above the top layer, an id outside the graph, a self-loop, a target that is not on this layer) or the edge exists already — a closed '
+                       'table; on every other path the list is rewritten (set_layer_neighbors), and every rewrite was offered the incoming node (appended, or pushed into '
+                       'the candidate list of the re-selection). A list that refuses newcomers for any other reason — "it is full", "this is layer 0" — leaves every node '
+                       'inserted after the lists filled up (2·M nodes) without incoming edges: no search can reach it and recall collapses on every build route '
+                       '(online, bulk, compaction and recovery all build through this function)')
+    mp = ctx.body('C16.R5', 'FlatGraph::merge_and_prune_reverse_edge_with_scratch')
+    if mp is not None:
+        of5 = flow.Origin(mp)
+        S = set(c.bb for c in mp.calls if c.callee and c.callee.endswith('FlatGraph::set_layer_neighbors'))
+        rets = set(x for x in mp.return_blocks() if x in mp.live_blocks())
+        before = (mp.reach([0], avoid_blocks=S) | {0}) - S
+        A = r'arg:\w+'
+        SKIP = [('layer above the top layer', flow.cmp_rx(A, A + r'→FlatGraph\.max_layer', '>=', 1)),
+                ('id outside the graph', flow.cmp_rx(r'FlatGraph::len\(%s\)' % A, A, '<=', 0)),
+                ('self-loop', flow.cmp_rx(A, A, '==', 0)),
+                ('target not on this layer', r'^!bool\[FlatGraph::layer_has_dense\(%s, %s, %s\)\]$' % (A, A, A)),
+                ('edge already present', r'^bool\[slice::contains\(FlatGraph::neighbors\(%s, %s, %s\), (%s)\)\]$' % (A, A, A, A))]
+
+        def positive(p):
+            """¬(E ≥ c) as E ≤ c−1, ¬(E ≤ c) as E ≥ c+1 (integers): one spelling per test, however the source negates it"""
+            m_ = re.match(r'^!cmp\[\+ (.*) (>=|<=) (-?\d+)\]$', p)
+            if not m_:
+                return p
+            return 'cmp[+ %s %s %d]' % (m_.group(1), '<=' if m_.group(2) == '>=' else '>=', int(m_.group(3)) + (-1 if m_.group(2) == '>=' else 1))
+        found, unknown, incoming = {}, [], None
+        for i_, blk in enumerate(mp.blocks):
+            if blk['t']['k'] != 'switch' or i_ not in mp.live_blocks() or i_ not in before or not (mp.reach([i_]) & S):
+                continue
+            for tg, p in flow.switch_edge_predicates(mp, i_, of5):
+                after = mp.reach([tg]) | {tg}
+                if (after & S) or not (after & rets):
+                    continue
+                # an edge that commits to returning without a rewrite of the list
+                cls = None
+                for nm_, rx_ in SKIP:
+                    m_ = re.match(rx_, positive(p))
+                    if m_:
+                        cls = nm_
+                        if nm_ == 'edge already present':
+                            incoming = m_.group(1)
+                        break
+                if cls is None:
+                    unknown.append((p, mp.loc_of(i_)))
+                else:
+                    found[cls] = found.get(cls, 0) + 1
+        ctx.inst('C16.R5', mp.short.replace('ann_backend::', ''), 'the target\'s list is left untouched only for invalid arguments or an existing edge', bool(S) and not unknown and 'edge already present' in found,
+                 ('the reverse edge is dropped without touching the target\'s list when %s (tested at %s): not an argument-validity test and not "already a neighbour" — nodes that '
+                  'arrive while this holds get no incoming edge from this neighbour' % (unknown[0][0][:120], unknown[0][1])) if unknown else
+                 'exits without a rewrite: %s' % ', '.join('%s ×%d' % kv for kv in sorted(found.items())))
+        ctx.floor('C16.R5', 'exits of the reverse-edge merge that leave the list untouched', sum(found.values()) + len(unknown), 6, 'top layer, target range, incoming range, self-loop, not on layer, present')
+        if incoming is None and mp.argc >= 4:
+            incoming = 'arg:' + mp.local_name(4)
+        inc = re.escape(incoming or 'arg:?')
+        offers = set(c.bb for c in mp.calls if c.callee and c.callee.endswith('::push') and len(c.args) == 2 and
+                     re.match(r'^(?:%s|tuple\{%s, .*\})$' % (inc, inc), flow.render(of5.of_operand(c.args[1]))))
+        present = [(i_, tg) for i_, blk in enumerate(mp.blocks) if blk['t']['k'] == 'switch' and i_ in mp.live_blocks() for tg, p in flow.switch_edge_predicates(mp, i_, of5)
+                   if re.match(r'^bool\[slice::contains\([^|]*, %s\)\]$|^bool\[[^|]*Iterator>::any\([^|]*, closure:[^|{]*\{closure#\d+\}\{%s\}\)\]$' % (inc, inc), p)]
+        r5 = mp.reach([0], avoid_blocks=offers, avoid_edges=present) | {0}
+        blind = sorted(S & r5)
+        ctx.inst('C16.R5', mp.short.replace('ann_backend::', ''), 'every rewrite of the list was offered the incoming node', bool(S) and bool(offers) and not blind,
+                 ('set_layer_neighbors at %s is reachable without %s having been pushed into the list or its candidates' % (mp.loc_of(blind[0]), incoming)) if blind else
+                 '%d rewrites, %d pushes of %s, %d "already in the list" edges' % (len(S), len(offers), incoming, len(present)))
     ctx.stat('functions_analysed', len(R))
